@@ -382,6 +382,7 @@ func c13Run(c *engine.Ctx) {
 				var rec func(seq []c13Op)
 				rec = func(seq []c13Op) {
 					if len(seq) > 0 {
+						t.Step(nil)
 						cont := kind.mk(nil)
 						var m []int
 						hist := kind.name + " empty"
@@ -422,6 +423,7 @@ func c13Run(c *engine.Ctx) {
 					}, func(t *engine.T) {
 						var n int64
 						run := func(seq []c13Op) {
+							t.Step(nil) // the watchdog judges one history, not the whole sub-tree of a case
 							var pre ap.ItemCollection
 							var m []int
 							if start == "pre" {
